@@ -76,7 +76,7 @@ static bool has_nan(const std::vector<double> &v) {
 // ------------------------------------------------------------------ Grid
 struct SeqC {
   std::vector<i64> code;
-  i64 ctor = 0;  // 0 vector, 1 iterator pair (vector), 2 iterator pair (list), 3 initializer_list, 4 shared_ptr, 5 null shared_ptr
+  i64 ctor = 0;  // 0 vector, 1 iterator pair (vector), 2 iterator pair (list), 3 initializer_list, 4 shared_ptr, 5 null shared_ptr, 6-9 iterator pair over another element type
   template <class A>
   void io(A &a) { a("code", code); a("ctor", ctor); }
 };
@@ -105,6 +105,46 @@ static void check_grid(const SeqC &c, vf::Obs &o) {
       if (v.size() > 6) valid = strictly_increasing(std::vector<double>(v.begin(), v.begin() + 6));
       break;
     case 4: res = outcome([&] { Grd g(std::make_shared<const std::vector<double>>(v)); }, what); break;
+    case 6: case 7: case 8: case 9: {
+      // iterator pair over a range whose ELEMENT TYPE differs from the grid's scalar type: validity is a statement about the
+      // points the grid stores, i.e. about the values AFTER conversion (two distinct source values may collapse)
+      std::string inv;
+      auto judge = [&](auto tag, const auto &src) {
+        using T = decltype(tag);
+        std::vector<T> conv;
+        for (const auto &x : src) conv.push_back(static_cast<T>(x));
+        bool ok = conv.size() >= 2;
+        for (size_t i = 0; i + 1 < conv.size(); i++) if (!(conv[i] < conv[i + 1])) ok = false;
+        valid = ok;
+        res = outcome([&] {
+          bspline::support::Grid<T> g(src.begin(), src.end());
+          inv = grid_invariant(g);
+          for (size_t i = 0; i < g.size() && i < conv.size(); i++) if (!(g[i] == conv[i])) inv = "stored point " + std::to_string(i) + " is not the converted source value";
+        }, what);
+      };
+      if (ctor == 6) {         // double -> Grid<float> (narrowing: nextafter(1) and 1 collapse, denormals flush to 0)
+        std::vector<double> src;
+        for (double x : v) src.push_back(std::isfinite(x) && std::fabs(x) > 1e30 ? std::copysign(1e30, x) : x);
+        judge(float{}, src);
+      } else if (ctor == 7) {  // long double -> Grid<double>: equal neighbours of the double sequence are made distinct in the source
+        std::vector<long double> src;
+        for (size_t i = 0; i < v.size(); i++) src.push_back((long double)v[i] + (std::isfinite(v[i]) ? (long double)i * 0x1p-62L * std::max(1.0L, std::fabs((long double)v[i])) : 0.0L));
+        judge(double{}, src);
+      } else if (ctor == 8) {  // float -> Grid<double> (widening, through a std::list)
+        std::list<float> src;
+        for (double x : v) src.push_back(std::isfinite(x) && std::fabs(x) > 1e30 ? (float)std::copysign(1e30, x) : (float)x);
+        judge(double{}, src);
+      } else {                 // double -> Grid<long> (truncation: 0.25 and 0.75 collapse)
+        std::vector<double> src;
+        for (double x : v) src.push_back(x == x && std::fabs(x) < 1e15 ? x : 0.0);
+        judge(long{}, src);
+      }
+      o.cls("ctor:" + std::to_string(ctor)); o.cls(valid ? "valid" : "invalid");
+      o.nt(true);
+      EXPECT_IFF(o, valid, res, what, "Grid construction from an iterator pair over another element type (route " << ctor << ", " << v.size() << " points)");
+      if (res == 0) VCHECK(o, inv.empty(), "accepted grid violates its invariant: " << inv);
+      return;
+    }
     case 5: valid = false; res = outcome([&] { Grd g(std::shared_ptr<const std::vector<double>>{}); }, what); break;
     default: res = outcome([&] { Grd g(v); }, what);
   }
@@ -416,7 +456,7 @@ static std::vector<i64> gen_codes(int maxlen, bool allow_equal_base) {
   return v;
 }
 int main(int argc, char **argv) {
-  vf::add_sub<SeqC>("grid", 2500, rc::gen::exec([] { SeqC c; c.code = gen_codes(8, false); c.ctor = pick(0, 5); return c; }), check_grid);
+  vf::add_sub<SeqC>("grid", 2500, rc::gen::exec([] { SeqC c; c.code = gen_codes(8, false); c.ctor = pick(0, 9); return c; }), check_grid);
   vf::add_sub<WinC2>("support", 1500, rc::gen::exec([] {
     WinC2 c; c.n = pick(2, 7);
     auto ix = [&]() -> i64 { return chance(85) ? pick(0, c.n + 2) : -pick(1, c.n + 3); };
